@@ -95,7 +95,32 @@ def run_real(ops, names, ctx, case):
         sentinel = [object() for _ in names]
         seen_args = {}
 
+        class Holder:
+            """traced callables may also be methods: decorated in the class body, called through an instance"""
+
+        holder = Holder()
+
         def mk(i, nm):
+            if i % 3 == 2:
+                def meth(self_, *a, **k):
+                    if self_ is not holder:
+                        ctx.fail('a traced method was not bound to its instance', case, 'method-binding')
+                    return plain(*a, **k)
+                meth.__name__ = nm
+                setattr(Holder, f'm{i}', tr.trace()(meth))
+
+                def plain(*a, **k):
+                    seen_args[i] = (a, k)
+                    if k.get('boom'):
+                        raise Boom(i)
+                    ch = k.get('chain')
+                    if ch:
+                        r = fns[ch[0]](*a, key=k.get('key'), boom=False, chain=ch[1:])
+                        if r is not sentinel[ch[0]]:
+                            ctx.fail('nested traced function returned a different object', case, 'return-changed')
+                    return sentinel[i]
+                return lambda *a, **k: getattr(holder, f'm{i}')(*a, **k)
+
             def fn(*a, **k):
                 seen_args[i] = (a, k)
                 if k.get('boom'):
@@ -123,6 +148,11 @@ def run_real(ops, names, ctx, case):
                 except Boom as e:
                     if not raises or e.args != (i,):
                         ctx.fail('traced function raised something else', case, 'raise-changed')
+                except Exception as e:  # noqa: BLE001
+                    ctx.fail(f'calling the traced {"method" if i % 3 == 2 else "function"} raised {type(e).__name__}: {e} '
+                             '(the undecorated one returns normally)', case, 'raise-changed')
+                    clock.script = []
+                    continue
                 a, k = seen_args.get(i, ((), {}))
                 if len(a) != 2 or a[0] is not arg or a[1] != 7 or k.get('key') is not arg:
                     ctx.fail('arguments were not passed through unchanged', case, 'args-changed')
@@ -130,7 +160,12 @@ def run_real(ops, names, ctx, case):
                 _, chain, incs = op
                 clock.script = [Fraction(1, 8)] + list(incs)
                 arg = object()
-                r = fns[chain[0]](arg, 7, key=arg, boom=False, chain=list(chain[1:]))
+                try:
+                    r = fns[chain[0]](arg, 7, key=arg, boom=False, chain=list(chain[1:]))
+                except Exception as e:  # noqa: BLE001
+                    ctx.fail(f'a chain of traced calls raised {type(e).__name__}: {e}', case, 'raise-changed')
+                    clock.script = []
+                    continue
                 if r is not sentinel[chain[0]]:
                     ctx.fail('traced function returned a different object', case, 'return-changed')
                 if clock.script:
@@ -177,6 +212,9 @@ def run(ctx):
         # F3 witness: a window of 0 reports all samples; a negative window drops a prefix
         ([('c', 0, Fraction(1), False), ('c', 0, Fraction(2), False), ('c', 0, Fraction(4), False),
           ('q', False, 0), ('q', True, 0), ('q', False, -1), ('q', True, 1), ('q', False, 2)], ['f', 'g', 'h', 'f']),
+        # a long history: "all of them when unset" has no bound on the number of samples
+        ([('c', 0, Fraction(1, 2), False)] * 6000 + [('c', 1, Fraction(1, 4), False)] + [('c', 0, Fraction(3, 2), False)] * 4050
+         + [('q', False, None), ('q', True, None), ('q', False, 10020), ('q', False, 5), ('q', True, 10050)], ['f', 'g', 'h', 'f']),
     ]
     for it in range(ctx.budget(400, 4000)):
         if it < len(corpus):
